@@ -3,8 +3,8 @@ import random
 from specs import fa as S
 
 SCHEMES = {
-    'int': [0, 1, 2, 3],
-    'str': ['q0', 'q1', 'q2', 'q3'],
+    'int': [0, 1, 2, 3, 4, 5, 6],
+    'str': ['q0', 'q1', 'q2', 'q3', 'q4', 'q5', 'q6'],
     'adv-merge': ['a', 'b', 'a;b', 'b;a'],            # names that look like merged subset names
     'adv-pair': ['a', 'b; c', 'a; b', 'c'],           # names that look like product-pair names
     'adv-reserved': ['TrashNode', "TrashNode'", 'q', "TrashNode''"],
@@ -45,6 +45,21 @@ def singles(tier, seed, exhaustive_scheme='str', n_random=2000, adv_share=0.25):
         scheme = rng.choice(ADV) if rng.random() < adv_share else rng.choice(['int', 'str'])
         if rng.random() < 0.06: R = S.mk(R[0], [], R[2], R[3], [(p_, a_, q_) for p_, a_, q_ in R[4] if a_ is None])     # epsilon moves only
         yield rename(R, scheme), scheme, 'random'
+    # (appended after the random stream above so that it is unchanged) shapes that small random automata almost never have:
+    rng2 = random.Random(seed * 104729 + 7)
+    for i in range(300 if tier == 'quick' else 3000):
+        # deterministic automata with 5-7 states over two symbols: partition refinement needs several rounds of splitting
+        R = S.random_dfa(rng2, rng2.choice([5, 6, 7]), ['a', 'b'], total_p=rng2.choice([0.7, 0.9, 1.0]))
+        yield rename(R, rng2.choice(['int', 'str'])), 'int/str', 'random DFA 5-7 states'
+    for i in range(300 if tier == 'quick' else 3000):
+        # acyclic automata (edges only from a lower to a higher state) with epsilon moves: diamonds, converging branches
+        n = rng2.choice([4, 5]); dens = rng2.choice([0.4, 0.6, 0.8]); trans = []
+        for p_ in range(n):
+            for q_ in range(p_ + 1, n):
+                for a_ in ('a', 'b', None):
+                    if rng2.random() < dens * (0.7 if a_ is None else 0.35): trans.append((p_, a_, q_))
+        R = S.mk(list(range(n)), ['a', 'b'], [0], [q_ for q_ in range(n) if rng2.random() < 0.4] or [n - 1], trans)
+        yield rename(R, rng2.choice(['int', 'str'])), 'int/str', 'random acyclic eps-NFA 4-5 states'
 
 
 def case_of(R, scheme, origin, **extra):
